@@ -297,17 +297,22 @@ class CallMixin:
 
     # ---- ghost recurrences -------------------------------------------------------------------------------------
     def recurrence_value(self, rec: Any, key: tuple, index: Any) -> V:
-        """The value R(index) as an application of the uninterpreted function(s) of this instance."""
+        """The value R(index, params) as an application of the uninterpreted function(s) of this recurrence.
+        key = (shape of the parameters (which are None), parameter terms): the terms are ARGUMENTS of the
+        function, so equal parameter values give equal ghost values whatever their syntactic form."""
+        shape, terms = key
+        sorts = [t.sort() for t in terms]
         desc = rec.returns
         if isinstance(desc, dsl.SeqOf):
             et = self.elem_type(desc.elem)
-            felem = z3.Function(f"ghost:{rec.name}:{key}[]", z3.IntSort(), z3.IntSort(), et.sort)
-            flen = z3.Function(f"ghost:{rec.name}:{key}.len", z3.IntSort(), z3.IntSort())
-            return SeqV(None, flen(index), et, fn=lambda j, felem=felem, index=index: felem(index, j))
+            felem = z3.Function(f"ghost:{rec.name}:{shape}[]", *sorts, z3.IntSort(), z3.IntSort(), et.sort)
+            flen = z3.Function(f"ghost:{rec.name}:{shape}.len", *sorts, z3.IntSort(), z3.IntSort())
+            return SeqV(None, flen(*terms, index), et,
+                        fn=lambda j, felem=felem, index=index, terms=terms: felem(*terms, index, j))
         et = self.elem_type(desc)
-        fn = z3.Function(f"ghost:{rec.name}:{key}", z3.IntSort(), et.sort)
+        fn = z3.Function(f"ghost:{rec.name}:{shape}", *sorts, z3.IntSort(), et.sort)
         if et.kind in ("int", "bool", "real", "str"):
-            return self.unpack(fn(index), et)
+            return self.unpack(fn(*terms, index), et)
         raise Unsupported(f"recurrence {rec.name} of type {desc!r}")
 
     def values_equal(self, a: V, b: V) -> Any:
@@ -328,22 +333,30 @@ class CallMixin:
         ctx = self.ctx
         index = as_int_term(args[0])
         params = args[1:]
+        shape = []
         terms = []
         for p in params:
-            if isinstance(p, (IntV, BoolV)):
-                terms.append(str(z3.simplify(as_int_term(p)).sexpr()) if isinstance(p, IntV) else str(p.t.sexpr()))
+            if isinstance(p, BoolV):
+                shape.append("b")
+                terms.append(p.t)
+            elif isinstance(p, IntV):
+                shape.append("i")
+                terms.append(z3.simplify(p.t))
             elif isinstance(p, StrV):
-                terms.append(str(ctx.str_term(p).sexpr()))
-            elif isinstance(p, NoneV):
-                terms.append("None")
+                shape.append("s")
+                terms.append(ctx.str_term(p))
             elif isinstance(p, RealV):
-                terms.append(str(p.t.sexpr()))
+                shape.append("r")
+                terms.append(p.t)
+            elif isinstance(p, NoneV):
+                shape.append("N")
             else:
                 raise Unsupported(f"recurrence {rec.name}: parameter of unsupported kind {p!r}")
-        key = tuple(terms)
+        key = ("".join(shape), tuple(terms))
+        done_key = (rec.name, key[0], tuple(str(t.sexpr()) for t in terms))
         init_fv = self.sidecar_function(rec.init)
         step_fv = self.sidecar_function(rec.step)
-        done = ctx.recur_done.setdefault((rec.name, key), set())
+        done = ctx.recur_done.setdefault(done_key, set())
         value = self.recurrence_value(rec, key, z3.simplify(index))
         if ctx.quant_depth:
             # the index mentions a bound variable: no instantiation here (instances come from the
